@@ -60,7 +60,18 @@ fn placer(case: &Value) -> Value {
         };
         insts[k].write().unwrap().loc = place;
     }
-    for p in &insts { top.instances.push(p.clone()); }
+    // `via_places`: how the instances are handed to the placer must not matter.  0: the `instances` list; 1: the general `places`
+    // list as Placeable::Instance, each preceded by two Port placeables of that instance (which need no placement of their
+    // own); 2: half and half
+    let via = case.get("via_places").and_then(|v| v.as_i64()).unwrap_or(0);
+    for (k, p) in insts.iter().enumerate() {
+        if via == 0 || (via == 2 && k % 2 == 0) { top.instances.push(p.clone()); }
+        else {
+            top.places.push(Placeable::Port { inst: p.clone(), port: "A".into() });
+            top.places.push(Placeable::Port { inst: p.clone(), port: "B".into() });
+            top.places.push(Placeable::Instance(p.clone()));
+        }
+    }
     for a in geta(case, "arrays") {
         let sepxy = (a["sep"][0].as_i64().unwrap() as isize, a["sep"][1].as_i64().unwrap() as isize);
         let mk_sep = |s: (isize, isize)| Separation::new(
@@ -154,9 +165,12 @@ fn stack_of(s: &Value) -> Result<t::validate::ValidStack, String> {
 fn gridded_lib_of(c: &Value) -> (t::library::Library, Ptr<t::cell::Cell>) {
     let mut lib = t::library::Library::new("glib");
     let mut top = t::layout::Layout::new("top", geti(c, "metals") as usize, t::outline::Outline::rect(geti(c, "nx") as isize, geti(c, "ny") as isize).unwrap());
+    // `parent_first`: the top cell is listed BEFORE the cells it instantiates (the order of the library must not matter)
+    let parent_first = c.get("parent_first").and_then(|b| b.as_bool()).unwrap_or(false);
+    let mut late: Vec<Ptr<t::cell::Cell>> = Vec::new();
     for (k, i) in geta(c, "insts").iter().enumerate() {
         let leaf = t::layout::Layout::new(format!("leaf{k}"), geti(i, "m") as usize, t::outline::Outline::rect(geti(i, "w") as isize, geti(i, "h") as isize).unwrap());
-        let lp = lib.cells.add(t::cell::Cell::from(leaf));
+        let lp = if parent_first { let p = Ptr::new(t::cell::Cell::from(leaf)); late.push(p.clone()); p } else { lib.cells.add(t::cell::Cell::from(leaf)) };
         top.instances.add(t::instance::Instance { inst_name: format!("i{k}"), cell: lp, loc: (geti(i, "x") as isize, geti(i, "y") as isize).into(),
             reflect_horiz: getb(i, "rh"), reflect_vert: getb(i, "rv") });
     }
@@ -164,6 +178,7 @@ fn gridded_lib_of(c: &Value) -> (t::library::Library, Ptr<t::cell::Cell>) {
     for a in geta(c, "assigns") { top.assignments.push(t::stack::Assign::new(gets(a, "net"),
         t::tracks::TrackCross::from_parts(geti(a, "l") as usize, geti(a, "t") as usize, geti(a, "cl") as usize, geti(a, "ct") as usize))); }
     let tp = lib.cells.add(t::cell::Cell::from(top));
+    for p in late { lib.cells.push(p); }
     (lib, tp)
 }
 fn compile(case: &Value) -> Result<Value, String> {
@@ -189,7 +204,9 @@ fn compile(case: &Value) -> Result<Value, String> {
             other => rects.push(json!({"layer": layer, "other": format!("{:?}", other)})),
         }
     }
-    Ok(json!({"rects": rects, "insts": lay.insts.len()}))
+    let cells: Vec<String> = rl.cells.iter().map(|c| c.read().unwrap().name.clone()).collect();
+    let inst_targets: Vec<String> = lay.insts.iter().map(|i| i.cell.read().unwrap().name.clone()).collect();
+    Ok(json!({"rects": rects, "insts": lay.insts.len(), "cells": cells, "inst_targets": inst_targets}))
 }
 /// C08 level 2: {stack, cell} -> rectangles of the compiled top cell
 fn tetris_compile(case: &Value) -> Value {
